@@ -161,8 +161,15 @@ where
 	/// Trims from the start of the capture buffer so the next chunk will begin
 	/// at the specified reader offset.
 	fn trim_to_offset(&mut self, offset: u64) {
-		let trim_len = usize::try_from(offset - self.captured_start_offset).unwrap();
-		self.captured_start_offset = offset;
+		let mut trim_len = usize::try_from(offset - self.captured_start_offset).unwrap();
+		// An implicit document starts at its first token, which for an indented
+		// block node comes after the indentation of its first line. That
+		// indentation is significant when the chunk is parsed on its own, so
+		// keep the run of spaces that directly precedes the offset.
+		while trim_len > 0 && self.captured[trim_len - 1] == b' ' {
+			trim_len -= 1;
+		}
+		self.captured_start_offset += trim_len as u64;
 		self.captured.drain(..trim_len);
 	}
 
